@@ -46,6 +46,10 @@ CHECKS = {
   text='Coq theorems: the regenerated roundup is the least multiple >= x for every integer; the five regenerated section-offset expressions place each section at the next 64-byte boundary; the content-index loop lists content i exactly when bit (7 - i mod 8) of byte i/8 is set; content selection returns exactly the TMD records marked present and refuses an index without a record; the title key survives the ticket round trip whenever D inverts E; content regions lie back to back; content IV expression regenerated. Content views are CBC wrappers over windows (C02). Geometry, title key, active set, content views and nested readers (different keys, interleaved order) decided against independent CIA/NCCH builders.',
   note='Partial: key isolation between nested readers and the composition with nested NCCH readers are oracle-only. Trusted: Coq kernel, translator, hand model Cia.v (tie 2 by oracle), builders, synthetic bootROM blobs.',
   technique='Rocq/Coq proofs over regenerated kernels and the index/selection model + builder oracle'),
+ 'C06': dict(
+  text='Coq theorems over an executable model of the RomFS metadata walk (iterate_dir with visited sets and table bounds) and path lookup: for EVERY pair of metadata byte strings the walk ends within fuel computed from the table sizes (it returns a tree or raises an entry/decode error; cyclic, repeated and out-of-table links are reported); case-insensitive lookups depend only on the lower-cased components, case-sensitive lookups find an entry named exactly as asked, missing components raise the not-found error; the IVFC level-3 offset expression is regenerated and proved for every block exponent. Extracted walk compared with the reader on valid images and on images with one retargeted link/length; listing, stat, walk, file bytes, case variants and error classes decided against an independent packer.',
+  note='Partial: "walking a packed tree returns that tree" (C06_walk_pack) is oracle-only (generated trees), not a theorem. Trusted: Coq kernel, translator, extraction + driver, hand model Romfs.v (tie 2), packer romfs.py.',
+  technique='Rocq/Coq proofs (fuel bound by a duplicate-free visited-set invariant, lookup lemmas) + correspondence on valid and corrupted tables + packer oracle'),
 }
 
 NOT_YET = 'check not built yet in this session (work in progress; see DESIGN.md section 10 order of work)'
